@@ -9,6 +9,9 @@ for d in sorted(glob.glob(os.path.join(HERE, 'seeded', '*'))):
     except Exception:
         continue
     e = m.get('evaluation', {})
+    if m.get('obsolete'):
+        rows.append('| %s | %s | obsolete: %s | – | – |' % (os.path.basename(d), (m.get('title') or '').replace('|', '/')[:110], m['obsolete'][:160]))
+        continue
     det = []
     for p, c in sorted((e.get('checks') or {}).items()):
         if c.get('exit') == 1:
